@@ -163,6 +163,12 @@ inductive Op where
   | unblock (a : Acct)
   | deploy (c : Acct)
   | destroy (c : Acct)
+  /-- Policy.recoverFund of the NEO of a blocked account to the Treasury; `pre` = the preconditions outside the
+      model (one year of block time since the blocking, "almost full" committee witness) hold -/
+  | recoverNeo (acc treasury : Acct) (pre : Bool)
+  /-- a committee-gated call about a deployed contract without effect on the state modelled here
+      (setWhitelistFeeContract / removeWhitelistFeeContract: their own state is Model/Ledger/Whitelist.lean) -/
+  | committeeAbout (c : Acct)
   | fault            -- a script that calls natives and then aborts
   | other            -- anything that does not touch the modelled state
 deriving DecidableEq, Repr
@@ -348,6 +354,22 @@ def execOp (w : TxView) (tx : Tx) : TxView × Res :=
     else
       let (w', _) := blockInternal w c
       ({ w' with st := { w'.st with deployed := w'.st.deployed.filter (· != c) } }, .halt)
+  | .recoverNeo acc tr pre =>
+    -- policy.go:991-1044: balanceOf, then NEO.transfer(acc, Treasury, balance) called on behalf of `acc`
+    if !pre then (w, .fault)
+    else match alGet w.st.accounts acc with
+      | none => (w, .haltFalse)
+      | some b =>
+        if b.balance ≤ 0 then (w, .haltFalse)
+        else match incBalance w acc (-b.balance) (some b.balance) with
+          | none => (w, .fault)
+          | some w1 => match incBalance w1 tr b.balance none with
+            | none => (w, .fault)
+            | some w2 => (w2, .haltTrue)
+  | .committeeAbout c =>
+    if !checkCommittee w tx then (w, .fault)
+    else if !w.st.deployed.contains c then (w, .fault)
+    else (w, .halt)
   | .fault => (w, .fault)
   | .other => (w, .skip)
 
